@@ -197,8 +197,8 @@ def gen_asm(rng, corpus=None):
     if n >= 2:
         for _ in range(rng.choice([0, 1, 1, 2, 3])):
             i, j = rng.sample(range(n), 2)
-            func = rng.choice(['SSxcte', 'SSycte'])
-            L = a if func == 'SSxcte' else b
+            func = rng.choice(['SSxcte', 'SSycte', 'SSxcte', 'SSycte', 'SB', 'BFxcte', 'BFycte'])
+            L = a if func in ('SSxcte', 'BFxcte') else b
             pos = lambda: rng.choice([0., L, rng.uniform(0.1, 0.9) * L])
             conns.append(dict(p1=i, p2=j, func=func, c1=pos(), c2=pos()))
     return dict(kind='asm', panels=panels, conns=conns, inc=rng.choice([1., 0.5]),
@@ -219,8 +219,9 @@ def build_asm(case):
     conn = []
     for c in case['conns']:
         d = dict(p1=ps[c['p1']], p2=ps[c['p2']], func=c['func'])
-        key = 'xcte' if c['func'] == 'SSxcte' else 'ycte'
-        d[key + '1'], d[key + '2'] = c['c1'], c['c2']
+        if c['func'] != 'SB':
+            key = 'xcte' if c['func'] in ('SSxcte', 'BFxcte') else 'ycte'
+            d[key + '1'], d[key + '2'] = c['c1'], c['c2']
         conn.append(d)
     return PanelAssembly(ps, conn=conn), ps, conn
 
@@ -389,15 +390,21 @@ def full_conn(case, ps, starts, size):
     for c in case['conns']:
         p1, p2 = ps[c['p1']], ps[c['p2']]
         func = c['func']
-        ctype = 'xcte' if func == 'SSxcte' else 'ycte'
+        ctype = {'SSxcte': 'xcte', 'BFxcte': 'xcte', 'SSycte': 'ycte', 'BFycte': 'ycte', 'SB': 'bot-top'}[func]
         kt, kr = pc.quiet(connections.calc_kt_kr, p1, p2, ctype)
         mod = getattr(connections, 'kC' + func)
         s1, s2 = 3 * p1.m * p1.n, 3 * p2.m * p2.n
         loc = max(s1, s2)
         f11, f12, f22 = [getattr(mod, nm) for nm in conn_kernel_names(func)]
-        k11 = fin_sym(dense(f11(kt, kr, p1, c['c1'], loc, 0, col0=0))[:s1, :s1])
-        k12 = dense(f12(kt, kr, p1, p2, c['c1'], c['c2'], loc, 0, col0=0))[:s1, :s2]
-        k22 = fin_sym(dense(f22(kt, kr, p1, p2, c['c2'], loc, 0, col0=0))[:s2, :s2])
+        if func == 'SB':
+            dsb = sum(p1.plyts) / 2. + sum(p2.plyts) / 2.
+            k11 = fin_sym(dense(f11(kt, dsb, p1, loc, 0, col0=0))[:s1, :s1])
+            k12 = dense(f12(kt, dsb, p1, p2, loc, 0, col0=0))[:s1, :s2]
+            k22 = fin_sym(dense(f22(kt, p1, p2, loc, 0, col0=0))[:s2, :s2])
+        else:
+            k11 = fin_sym(dense(f11(kt, kr, p1, c['c1'], loc, 0, col0=0))[:s1, :s1])
+            k12 = dense(f12(kt, kr, p1, p2, c['c1'], c['c2'], loc, 0, col0=0))[:s1, :s2]
+            k22 = fin_sym(dense(f22(kt, kr, p1, p2, c['c2'], loc, 0, col0=0))[:s2, :s2])
         a, b = starts[c['p1']], starts[c['p2']]
         K[a:a + s1, a:a + s1] += k11
         K[b:b + s2, b:b + s2] += k22
@@ -879,12 +886,32 @@ def standalone_sum(case, bay, what):
         for s in bay.bladestiff2ds:
             own = pc.quiet(s.flange.get_size) if s.flange is not None else 0
             loc = skin + own
+            if what in ('kG0', 'kM'):
+                # no connection terms: exactly the PANELS of the stiffener (pad-up on the skin amplitudes - mass only -,
+                # flange at its own range), each stand-alone
+                if what == 'kM' and s.base is not None:
+                    Mp = dense(pc.quiet(s.base.calc_kM, size=skin, row0=0, col0=0, silent=True, finalize=False), skin)
+                    piece.append(np.abs(Mp).max() if Mp.size else 0.)
+                    S[:skin, :skin] += Mp
+                if s.flange is not None:
+                    o = start[('b2f', id(s))]
+                    Mp = dense(pc.quiet(getattr(s.flange, 'calc_' + what), size=own, row0=0, col0=0, silent=True, finalize=False), own)
+                    piece.append(np.abs(Mp).max() if Mp.size else 0.)
+                    S[o:o + own, o:o + own] += Mp
+                continue
             pc.quiet(getattr(s, 'calc_' + what), size=loc, row0=skin, col0=skin, silent=True, finalize=False)
             M = dense(getattr(s, attr), loc)
             idx = np.concatenate([np.arange(skin), (start[('b2f', id(s))] + np.arange(own)) if own else np.arange(0)]).astype(int)
             S[np.ix_(idx, idx)] += M
         for s in bay.tstiff2ds:
             bs, fs = pc.quiet(s.base.get_size), pc.quiet(s.flange.get_size)
+            if what in ('kG0', 'kM'):
+                # no connection terms: the T stiffener contributes exactly its two PANELS, each stand-alone at its own range
+                for pan, off, sz in ((s.base, start[('tb', id(s))], bs), (s.flange, start[('tb', id(s))] + bs, fs)):
+                    Mp = dense(pc.quiet(getattr(pan, 'calc_' + what), size=sz, row0=0, col0=0, silent=True, finalize=False), sz)
+                    piece.append(np.abs(Mp).max() if Mp.size else 0.)
+                    S[off:off + sz, off:off + sz] += Mp
+                continue
             loc = skin + bs + fs
             pc.quiet(getattr(s, 'calc_' + what), size=loc, row0=skin, col0=skin, silent=True, finalize=False)
             M = dense(getattr(s, attr), loc)
